@@ -106,12 +106,47 @@ def judge(case):
                         out.bad("parsed-off-changes-frames",
                                 f"{case['name']} validate={v} labelmsm={lm} q={q}: raw sequences differ")
     _interleaved(case, source, results, out)
+    _seekable(case, source, results, out)
     out.states = len({e[1] if e[0] != "pair" else e[2] for _k, (_p, rec) in results.items()
                       for e in rec["events"]})
     out.nontrivial = not all_valid or any(i["kind"] == "skip" for i in its)
     out.obs = core.h64(repr((case["name"], [(k, [(a, b) for a, b, _, _ in v[0]])
                                             for k, v in sorted(results.items(), key=str)])))
     return out
+
+
+def _seekable(case, source, results, out):
+    """The same stream as a seekable io.BytesIO: the stream kind must not change what is taken."""
+    import io  # pylint: disable=import-outside-toplevel
+
+    from pyrtcm import RTCMReader  # pylint: disable=import-outside-toplevel
+
+    lib = H.lib_exceptions()
+    for key in CFGS:
+        v, p, lm, q = key
+        stream = io.BytesIO(source)
+        rdr = RTCMReader(stream, validate=v, quitonerror=q, parsed=p, labelmsm=lm,
+                         errorhandler=lambda e: None)
+        got = []
+        for _ in range(len(source) + 8):
+            try:
+                raw, msg = rdr.read()
+            except lib:
+                continue
+            except Exception as err:  # pylint: disable=broad-except
+                out.bad("reader-breaks", f"{case['name']} {key} (BytesIO): {type(err).__name__}: {err}")
+                break
+            if raw is None and msg is None:
+                break
+            got.append((stream.tell() - len(raw), stream.tell(), raw))
+        alone = [(a, b, r) for a, b, r, _m in results[key][0]]
+        out.transitions += len(got) + 1
+        if got != alone:
+            out.bad("stream-kind-changes-frames",
+                    f"{case['name']}: reader(validate={v}, parsed={p}, labelmsm={lm}, quitonerror={q}) "
+                    f"takes {[(a, b) for a, b, _ in got]} from a seekable BytesIO but "
+                    f"{[(a, b) for a, b, _ in alone]} from a plain stream of the same bytes")
+            break
 
 
 def _interleaved(case, source, results, out):
@@ -167,7 +202,9 @@ def alphabet(tier):
     ptext, _o, _n = R.build("1029", {"DF139": 250, "DF138": 100}, "fp")  # 259-byte known type
     good = [f["F2"], f["F19"], f["Fmsm"], items.frame_item("Ftext259", ptext),
             items.frame_item("F300", items.unknown_payload(300, 4006)),
-            items.frame_item("F1023", items.unknown_payload(1023, 4007))]
+            items.frame_item("F1023", items.unknown_payload(1023, 4007)),
+            f["Fnested"], f["Fsync"],
+            items.frame_item("Fnmea", b"\xfa\x20$GNGGA,1*00\r\n\xb5\x62\x01")]
     out = []
     for g in good:
         out.append({"name": g["name"], "data": g["data"], "kind": "frame", "payload": g["payload"]})
@@ -178,6 +215,12 @@ def alphabet(tier):
             d[len(d) - 3 + b // 8] ^= 0x80 >> (b % 8)
             out.append({"name": f"{g['name']}~{b}", "data": bytes(d), "kind": "damaged",
                         "payload": g["payload"]})
+        # wrong trailers that are not single-bit neighbours of the right one: all zero, and the
+        # trailer of another frame (two different frames may then carry the SAME trailer bytes)
+        for tag, tr in (("zero", b"\x00\x00\x00"), ("copy", good[0]["data"][-3:]), ("24", b"\x12\x34\x24")):
+            if g["data"][-3:] != tr:
+                out.append({"name": f"{g['name']}~{tag}", "data": g["data"][:-3] + tr, "kind": "damaged",
+                            "payload": g["payload"]})
     out.append({"name": "nmeaG", "data": items.nmea("G"), "kind": "skip", "payload": None})
     out.append({"name": "ubx8", "data": items.ubx(b"\xd3\x00\xb5\x62\x24\x47\x0a\xd3"),
                 "kind": "skip", "payload": None})
@@ -191,13 +234,15 @@ def cases(tier):
         out.append({"name": "+".join(i["name"] for i in combo), "items": list(combo)})
     core_items = [a for a in alpha if a["kind"] != "damaged"]
     dmg = [a for a in alpha if a["kind"] == "damaged"]
-    sel = dmg
+    sel = dmg if tier == "thorough" else [d for d in dmg if d["name"].split("~")[1] in
+                                          ("0", "7", "8", "16", "23", "zero", "copy", "24")]
     small = core_items + sel
     for combo in itertools.product(small, repeat=2):
         out.append({"name": "+".join(i["name"] for i in combo), "items": list(combo)})
     tri = core_items + [d for d in dmg if d["name"].split("~")[1] in ("0", "7", "8", "15", "16", "23")]
     if tier == "quick":
-        tri = core_items + [d for d in dmg if d["name"] in ("F2~23", "F19~0", "Fmsm~8")]
+        tri = core_items[:5] + [d for d in dmg if d["name"] in ("F2~23", "F19~0", "Fmsm~8", "F19~zero",
+                                                                  "Fmsm~zero", "Fnested~zero")]
     for combo in itertools.product(tri, repeat=3):
         out.append({"name": "+".join(i["name"] for i in combo), "items": list(combo)})
     return out
